@@ -794,7 +794,7 @@ class HandleExit(Unit):
         return dict(confirmed=False, call='_handle_exit', observed='')
 
 
-def units(tier):
+def _own_units(tier):
     from . import c01
     fr = c01.ReadFrame()
     # "with compression on and off": the packets reach the reactor only if the reader accepts the frames of ANY conforming
@@ -805,3 +805,8 @@ def units(tier):
     # the read loop takes a false value for "nothing read": every packet object (keep-alives included) must be true
     tr.prop, tr.name = 'C11', 'C11.packets-are-true'
     return [PlaySteps(), KeepAliveWire(), PopPacket(), RunLoop(), HandleExit(), fr, tr]
+
+
+def units(tier):
+    from .deps import dependency_units
+    return _own_units(tier) + dependency_units('C11')
